@@ -2,7 +2,8 @@
 
 (a) scripted histories: restart requests and raw step-size proposals are injected at generated (block, slot) positions
     into the real BasicRestarting / StepSizeLimiter / SpreadStepSizes machinery; invariants derived from the statement are
-    checked over observer snapshots with an independent retry counter (attempts at the same start time in a row).
+    checked over observer snapshots with two independent retry counters that bracket the readings of "retried in a row"
+    (own failures of the first step only / every consecutive attempt in which the step was recomputed).
 (b) real adaptive runs (embedded, RK, polynomial, extrapolation estimators): the step size of the next block is recomputed
     from the observed estimate with beta*dt*(tol/err)^(1/order), slope limits, absolute limits; accepted steps satisfy the
     tolerance unless the retry budget was exhausted; rejected steps are retried with a smaller step unless a lower limit binds.
@@ -41,7 +42,9 @@ RULE = (
     'Non-trivial = >= 2 restarts of which one at a slot > 0 or the same step restarted twice in a row (scripted); >= 1 rejected and >= 5 accepted steps (adaptive).'
 )
 ASSUMPTIONS = [
-    'retry counter = number of immediately preceding block attempts whose restart point is the start time of the current block (independent of the library counter)',
+    'retry counters (independent of the library counter): lo = number of immediately preceding block attempts whose restart point is the start of the current block (own failures); '
+    'hi = consecutive attempts in which the step now first in the block was recomputed, also as a follower of an earlier failing step (what the MPI flavour counts). '
+    'The statement does not say which of the two is meant: exceeding the budget is judged with lo, giving up / raising too early with hi',
     'a request that is not honoured is legal only when the first step of that block has exhausted its retry budget (lenient reading that matches move-on semantics)',
     'Tend clipping of the spreader is not part of the statement: a smaller-than-proposed step is accepted only if the proposed one would overshoot Tend',
 ]
@@ -88,6 +91,22 @@ def retry_counts(info):
     return counts
 
 
+def retry_counts_hi(info):
+    """per-step count carried along with the steps: a step restarted in block b-1 (own request or follower of an earlier restarted step)
+    moves to slot i - first_restart of block b with its count + 1; steps entering the block are new (0)."""
+    hi = []
+    cur = []
+    for b, I in enumerate(info):
+        if b == 0:
+            cur = [0] * I['n']
+        else:
+            P = info[b - 1]
+            moved = [c + 1 for c in cur[P['first_restart'] :]] if P['restart_time'] is not None else []
+            cur = (moved + [0] * I['n'])[: I['n']]
+        hi.append(cur[0] if cur else 0)
+    return hi
+
+
 # ----------------------------------------------------------------------------------------------- scripted
 def prop_scripted(case, r):
     P = case['num_procs']
@@ -116,6 +135,7 @@ def prop_scripted(case, r):
         r.label('limiter')
     info = analyse_blocks(blocks)
     counts = retry_counts(info)
+    counts_hi = retry_counts_hi(info)
     script = {(e['block'], e['slot']): e for e in case['script']}
     n_restarts = sum(1 for I in info if I['restart_time'] is not None)
     restart_at_later_slot = any(I['restart_time'] is not None and I['first_restart'] > 0 for I in info)
@@ -131,11 +151,11 @@ def prop_scripted(case, r):
         r.check(len({tuple(s['dts']) for s in blk}) == 1, 'block-dt', f'block {b}: {[s["dts"] for s in blk]}')
         r.check(all(flags[I['first_restart'] :]), 'restart-suffix', f'block {b}: {flags}')
         reqs = [i for i in range(I['n']) if script.get((b, i), {}).get('restart')]
-        exhausted = counts[b] >= case['max_restarts']
+        exhausted = counts_hi[b] >= case['max_restarts']
         if reqs:
             first_req = 0 if case['from_first'] else min(reqs)
             if not exhausted:
-                r.check(I['first_restart'] <= first_req, 'request-ignored', f'block {b}: request at slot {min(reqs)} but steps up to {I["first_restart"]} were kept (retry count {counts[b]} < {case["max_restarts"]})')
+                r.check(I['first_restart'] <= first_req, 'request-ignored', f'block {b}: request at slot {min(reqs)} but steps up to {I["first_restart"]} were kept (retry count {counts_hi[b]} < {case["max_restarts"]})')
             if not exhausted and not case['from_first']:
                 r.check(I['first_restart'] == first_req, 'kept-steps', f'block {b}: first request at slot {first_req}, first restarted slot {I["first_restart"]}')
             if not exhausted and case['from_first']:
@@ -182,11 +202,9 @@ def prop_scripted(case, r):
         r.check(case['crash'], 'unexpected-error', f'ConvergenceError although crash_after_max_restarts=False: {raised}')
         # reconstruct the count for the raising block
         c = 0
-        j = len(info) - 1
-        start = info[-1]['restart_time'] if info and info[-1]['restart_time'] is not None else None
-        while j >= 0 and info[j]['restart_time'] is not None and info[j]['restart_time'] == start:
-            c += 1
-            j -= 1
+        if info and info[-1]['restart_time'] is not None:
+            ghost = dict(info[-1], n=max(1, info[-1]['n'] - info[-1]['first_restart']), restart_time=None)
+            c = retry_counts_hi(info + [ghost])[-1]
         r.check(c >= case['max_restarts'], 'error-too-early', f'ConvergenceError after only {c} retries in a row (max {case["max_restarts"]})')
         req0 = script.get((b, 0), {}).get('restart')
         r.check(bool(req0), 'error-without-request', f'ConvergenceError in block {b} but its first step has no restart request')
@@ -306,7 +324,7 @@ def prop_adaptive(case, r):
         raise
     blocks = list(R.Observer.blocks)
     info = analyse_blocks(blocks)
-    counts = retry_counts(info)
+    counts = retry_counts_hi(info)
     r.label(flavor, case['problem'], f'procs{P}')
     if lim:
         r.label('limiter')
